@@ -10,5 +10,5 @@ CONSTANTS
   Eval <- MEval
   QWords <- MQWords
   QGrams <- MQGrams
-INVARIANTS C10NoStale C01NoPanic Consistent C06Shape C12Shape
+INVARIANTS C10NoStale C01NoPanic Consistent C06Shape C12Shape C07Perm
 CHECK_DEADLOCK FALSE
